@@ -77,12 +77,41 @@ def py_props(o, s):
     return res
 
 
+def escalate(ctx, prop, scripts_seen):
+    key = prop.lower()
+    items = [json.loads(k) for k in sorted(scripts_seen)]
+    rnd = random.Random(ctx.seed)
+    if len(items) > ctx.pick(60, 400):
+        items = rnd.sample(items, ctx.pick(60, 400))
+    path = ctx.workfile("explore_scripts.ndjson")
+    with open(path, "w") as f:
+        for script, d0, reindex in items:
+            f.write(json.dumps({"script": script, "disk0": d0, "reindex": reindex}) + "\n")
+    per = ctx.pick(25, 120)
+    p = vlib.run_bin("vh_ls_explore", [ctx.workfile("xroot"), path, per, ctx.seed], timeout=ctx.pick(1500, 5400))
+    outs = vlib.ndjson(p.stdout)
+    ctx.note("escalation", {"scripts": len(items), "schedules_per_script": per, "runs": len(outs)})
+    for o in outs:
+        ctx.count(("explore", json.dumps(o["trace"])), nontrivial=len(o["trace"]) >= 6)
+        kinds = "-".join(m["kind"] for m in o["script"])
+        if o["panics"]:
+            ctx.violation("%s/explore/panic/%s" % (prop, kinds), o)
+            continue
+        had_reload = any(m["kind"] == "cfg" for m in o["script"]) or (o.get("reindex") and any(m["kind"] == "save" for m in o["script"]))
+        # closed files are not judged here (the model's `late` exemption is not available): every uri counts as late
+        pv = py_props({"final": o["final"], "script": o["script"]},
+                      {"disk": o["disk0"], "late": list(o["disk0"].keys()), "hadReload": had_reload})
+        if key in pv and not pv[key]:
+            ctx.violation("%s/explore/%s" % (prop, kinds), {"observed_on_real_server": True, "run": o})
+
+
 def run(ctx, prop):
     inline = mine_inline(ctx)
     ctx.note("mined_inline", inline)
     key = prop.lower()
     total_sched = 0
     ndiverged = [0]
+    scripts_seen = {}
     replayed = 0
     rnd = random.Random(ctx.seed)
     for name in PLAN[prop][ctx.tier]:
@@ -123,6 +152,10 @@ def run(ctx, prop):
             raise vlib.ToolError("vh_ls_sync returned %d results for %d schedules\n%s" % (len(outs), len(chosen), p.stderr[-2000:]))
         ctx.note("config_" + name, {"constants": consts, "states": res.distinct, "quiescent_behaviours": len(sched),
                                     "model_violations": len(bad), "replayed": len(chosen)})
+        for s in sched:
+            d0 = s["hist"][0]["st"]["disk"] if s["hist"][0]["a"] != "disk" else None
+            if d0 is not None and s.get("disk") == d0:      # scripts without disk writes only
+                scripts_seen.setdefault(json.dumps([s["script"], d0, s.get("reindex", False)], sort_keys=True), None)
         for s, o in zip(chosen, outs):
             replayed += 1
             kinds = "-".join(m["kind"] for m in s["script"])
@@ -150,6 +183,11 @@ def run(ctx, prop):
                         "schedule": [[h["a"], h.get("kind"), h.get("i"), h.get("lock"), h.get("ms")] for h in s["hist"]],
                         "final_state": s["hist"][-1]["st"]})
     ndiv = ndiverged[0]
+    if replayed and ndiv * 20 > replayed and not ctx.violations:
+        # Escalation (DESIGN 2.2): the specification does not explain the code any more, so it cannot say which
+        # interleavings matter. Explore the real server's schedule space directly for the scripts TLC produced and
+        # judge the final real states with the property predicates.
+        escalate(ctx, prop, scripts_seen)
     ctx.note("replays_diverged", ndiv)
     if replayed and ndiv * 20 > replayed and not ctx.violations:
         # the specification no longer explains the code: that is a finding about the MODEL, escalate as tool error
